@@ -89,6 +89,12 @@ Definition cache_model (c : bool * list cop) : list (cout * nat) :=
                 dict(op='goc', sub=[], key='key', comp=None, force=False), dict(op='goc', sub=[], key='key', comp=[None], force=False),
                 dict(op='plant', sub=[], key='k2', other='key', value=1), dict(op='goc', sub=[], key='k2', comp=[1], force=False),
                 dict(op='get', sub=[], key='k2'), dict(op='goc', sub=[], key='k2', comp=[2], force=True)]),
+            # a write-aside file left by a killed writer (empty, torn, complete) does not matter
+            dict(allow_nones=True, leftover_tmp=[[[], 'key', ''], [[], 'k2', '{"key": "k2", "val'], [['sub'], 'key', '{"key": "key", "value": 9}']],
+                 ops=[dict(op='get', sub=[], key='key'), dict(op='goc', sub=[], key='key', comp=[1], force=False),
+                      dict(op='goc', sub=[], key='key', comp=[2], force=True), dict(op='goc', sub=[], key='k2', comp=[3], force=False),
+                      dict(op='get', sub=['sub'], key='key'), dict(op='goc', sub=['sub'], key='key', comp=[4], force=False),
+                      dict(op='get', sub=[], key='k2'), dict(op='get', sub=['sub'], key='key')]),
             # keys that are canonically equivalent as unicode texts are different keys
             dict(allow_nones=True, ops=[
                 dict(op='goc', sub=[], key='caf\u00e9', comp=[1], force=False), dict(op='get', sub=[], key='cafe\u0301'),
@@ -131,6 +137,9 @@ Definition cache_model (c : bool * list cop) : list (cout * nat) :=
                 else:
                     ops.append(dict(op='plant', sub=sub, key=key, other=rng.choice(KEYS), value=rng.choice(VALUES)))
             out.append(dict(allow_nones=rng.random() < 0.7, ops=ops))
+            if rng.random() < 0.3:
+                out[-1]['leftover_tmp'] = [[op['sub'], op['key'], rng.choice(['', '{"key": "x", "va', '{"key": "x", "value": 1}'])]
+                                           for op in ops[:3]]
         return out
 
     checks_key = True
@@ -160,6 +169,13 @@ Definition cache_model (c : bool * list cop) : list (cout * nat) :=
         try:
             root = self.make_root(Path(d) / 'root', case)
             outs = []
+            # what a writer killed between creating its write-aside file and publishing it leaves behind
+            for sub, key, content in case.get('leftover_tmp', []):
+                c = root
+                for s_ in sub:
+                    c = c.subcache(s_)
+                fp = c.filepath(key)
+                fp.with_name(f'tmp_{fp.name}').write_bytes(content.encode())
             for op in case['ops']:
                 c = root
                 for s in op['sub']:
